@@ -63,7 +63,7 @@ Qed.
 
 (** the premise is satisfiable by a failing query: //b[nosuch()] *)
 Example C19_error_example :
-  query ex_doc ex_doc_e4 ctx_default = (Err (ENotFoundFunction [110; 111; 115; 117; 99; 104]%N), ctx_default).
+  query ex_doc ex_doc_e4 ctx_default = (Err (XErrNotFoundFunction [110; 111; 115; 117; 99; 104]%N), ctx_default).
 Proof. exact ex_error_restores. Qed.
 
 Print Assumptions C19_eval_restores_context.
